@@ -23,6 +23,9 @@ RULE = (
 )
 
 
+SLOW_KNOWN = rx.SLOW_KNOWN_TEMPLATES  # reaction id of the recorded H2 reductive-amination finding
+
+
 def eligible():
     return [i for i, (_, _, style) in enumerate(cg.corpus()) if style != "mixed"]
 
@@ -38,9 +41,24 @@ def body(case, rec):
     if kind == "rc" and facts["outside_change"]:
         rec.label("skip:change-outside-centre")
         return
+    if kind == "its" and invert and reaction_id(rsmi0) in SLOW_KNOWN:
+        # recorded finding C04-h2-reductive-amination-backward: with the full-ITS template the 144 matches each go
+        # through the explicit-hydrogen re-matching (about 3 minutes per application, all without result).  Excluded
+        # by construction and counted; the centre template of the same reaction stays in the search and reports it.
+        rec.label("excluded:known-h2-full-its-backward")
+        return
     rsmi = cg.variant(rsmi0, case.get("spec") or {})
     r, p = rsmi.split(">>")
-    substrate = cg.unmapped(p if invert else r)
+    if case.get("frag_order"):
+        # explicit fragment order of the substrate side (exhaustive fragment-order sweep)
+        side = (p if invert else r).split(".")
+        side = ".".join(side[k] for k in case["frag_order"])
+        r, p = (r, side) if invert else (side, p)
+        rsmi = f"{r}>>{p}"
+        assert cg.rxn_key(rsmi) == cg.rxn_key(rsmi0)
+    # the substrate string follows the writing of the (rewritten) reaction: atom order and fragment order are kept
+    rewritten = bool(case.get("frag_order")) or any((case.get("spec") or {}).get(k) for k in ("atoms", "frags"))
+    substrate = cg.unmapped(p if invert else r, canonical=not rewritten)
     tpl = rx.template_graph(rsmi, kind)
     reactor = rx.make_reactor(substrate, tpl, invert, strategy, style)
     if strategy == "comp":
@@ -63,7 +81,8 @@ def body(case, rec):
         rec.label("rewritten")
     rec.show(dict(reaction=rsmi[:200], kind=kind, invert=invert, strategy=strategy, style=style, matches=nmatch, outputs=len(out)))
     if want not in keys:
-        if not out and rx.embedding_count_exceeds(_pattern(reactor), reactor.graph.raw, 5000):
+        # the documented threshold guard empties the MATCH list; only then is the (expensive) reference count needed
+        if nmatch == 0 and rx.embedding_count_exceeds(_pattern(reactor), reactor.graph.raw, 5000):
             rec.label("skip:above-embedding-threshold")
             return
         # attribution: does gluing every raw SubgraphSearchEngine match recover the reaction?
@@ -107,6 +126,28 @@ def enum_corpus(tier):
                     yield dict(rxn=i, spec={}, kind=kind, invert=invert, strategy=s)
 
 
+def enum_fragment_orders(tier):
+    """Every order of the substrate side's fragments for reactions with >= 3 fragments there (all 6 / 24 orders for
+    3 / 4 fragments, 24 evenly spaced ones beyond), centre template, component-aware strategies."""
+    import itertools
+
+    for i in eligible():
+        rsmi = cg.corpus()[i][0]
+        r, p = rsmi.split(">>")
+        for invert in (False, True):
+            n = (p if invert else r).count(".") + 1
+            if n < 3 or (n > 4 and tier == "quick"):
+                continue
+            perms = list(itertools.permutations(range(n))) if n <= 4 else None
+            if perms is None:
+                allp = itertools.permutations(range(n))
+                step = max(1, __import__("math").factorial(n) // 24)
+                perms = [q for k, q in enumerate(allp) if k % step == 0][:24]
+            for q in perms:
+                for s in (("comp",) if tier == "quick" else ("comp", "bt", "all")):
+                    yield dict(rxn=i, spec={}, kind="rc", invert=invert, strategy=s, frag_order=list(q))
+
+
 def strat(tier):
     return st.fixed_dictionaries(
         dict(
@@ -122,6 +163,8 @@ def strat(tier):
 SUBS = [
     Sub("corpus_identity", body, enum=enum_corpus, exhaustive=True, shards={"quick": 16, "thorough": 16},
         doc="every eligible corpus reaction x {centre, full ITS} x {forward, backward} (x 3 strategies in thorough)"),
-    Sub("variants", body, strategy=strat, examples={"quick": 1600, "thorough": 40000}, shards={"quick": 16, "thorough": 16},
+    Sub("fragment_orders", body, enum=enum_fragment_orders, exhaustive=True, shards={"quick": 16, "thorough": 16},
+        doc="all fragment orders of substrate sides with >= 3 fragments, centre template, comp (quick) / comp, bt, all (thorough)"),
+    Sub("variants", body, strategy=strat, examples={"quick": 6000, "thorough": 60000}, shards={"quick": 16, "thorough": 16},
         doc="Hypothesis: corpus reaction under generated renumbering / atom re-ordering / fragment shuffle, all configurations"),
 ]
